@@ -95,3 +95,49 @@ def replay_api(vc, unit):
     res = dec(out["result"])
     rec["native_result"] = res
     return bool(res.get("violates")), rec
+
+
+def replay_write(vc, unit):
+    from pyvc import units
+    from pyvc.native import dec
+    w = vc.get("witness") or {}
+    if not all(k in w for k in ("family", "id", "table", "value")):
+        return None
+    clause = vc["name"].rsplit("/", 1)[-1]
+    port = 502 if "@502" in vc["name"] else 8899
+    val = w["value"]
+    if isinstance(val, dict) and "$sym" in val:
+        return None
+    task = {"op": "func", "module": "contracts.inverter_native", "func": "replay_write",
+            "kwargs": {"family": w["family"], "table": w["table"], "sid": w["id"], "value": val, "port": port,
+                       "check": clause}}
+    out = units.native_batch([task])[0]
+    rec = {"kind": "script", "native_task": task, "native_result": out}
+    if not out["ok"]:
+        return None, rec
+    res = dec(out["result"])
+    rec["native_result"] = res
+    return bool(res.get("violates")), rec
+
+
+def replay_c19(vc, unit):
+    from pyvc import units
+    from pyvc.native import dec
+    w = vc.get("witness") or {}
+    clause = vc["name"].rsplit("/", 1)[-1]
+    if "mode" in w:
+        task = {"op": "func", "module": "contracts.inverter_native", "func": "replay_opmode",
+                "kwargs": {"family": w["family"], "fw2": w["fw2"], "p745": w["p745"], "mode": w["mode"],
+                           "power": w["power"], "soc": w["soc"], "prior": w["prior"], "check": clause}}
+    elif "which" in w:
+        task = {"op": "func", "module": "contracts.inverter_native", "func": "replay_limit",
+                "kwargs": {"family": w["family"], "which": w["which"], "x": w["x"], "variant": w.get("variant", 0)}}
+    else:
+        return None
+    out = units.native_batch([task])[0]
+    rec = {"kind": "script", "native_task": task, "native_result": out}
+    if not out["ok"]:
+        return None, rec
+    res = dec(out["result"])
+    rec["native_result"] = res
+    return bool(res.get("violates")), rec
